@@ -147,6 +147,7 @@ theorem step_recorded {O : Oracle} {c : Conf} {s : State} {op : Op} {m : Bytes} 
   | sleep d => simp [Op.mac?] at hm
   | restart => simp [Op.mac?] at hm
   | reorder d => simp [Op.mac?] at hm
+  | resetLeases => simp [Op.mac?] at hm
 
 /-! ### liveness of DISCOVER -/
 
